@@ -1,3 +1,70 @@
 import Driver.Common
-/-! stub: replaced by the owner of this driver -/
-def main : IO Unit := Driver.run () (fun s _ => (s, "bad-op"))
+import ScionVerif.Model.Layout
+/-! line-protocol driver for the codec models (C02: view sizes and access ranges; C03: encode / decode)
+
+requests
+* `size <kind> <hex>`      → `ok <n>` | `err small <at> <required> <actual>` | `err other <msg>` | `panic`
+  kinds: header stdpath onehop info hop raw udppkt scmppkt udp scmp scmpmsg:<Name>
+* `const <name>`           → `<n>` (a generated constant, for the translator sanity check)
+-/
+open ScionVerif ScionVerif.Layout ScionVerif.Generated.Layout Driver
+
+def us (s : String) : String := String.ofList (s.toList.map (fun c => if c == ' ' then '_' else c))
+
+def errStr : VErr → String
+  | .tooSmall a r n => s!"err small {us a} {r} {n}"
+  | .other m => s!"err other {us m}"
+  | .panic => "panic"
+
+def sizeStr : Except VErr Nat → String
+  | .ok n => s!"ok {n}"
+  | .error e => errStr e
+
+def kindOf (s : String) : Option ViewKind :=
+  match s with
+  | "header" => some .header
+  | "stdpath" => some .stdPath
+  | "onehop" => some .oneHop
+  | "info" => some .infoField
+  | "hop" => some .hopField
+  | "raw" => some .rawPacket
+  | "udppkt" => some .udpPacket
+  | "scmppkt" => some .scmpPacket
+  | "udp" => some .udp
+  | "scmp" => some .scmp
+  | _ =>
+    if s.startsWith "scmpmsg:" then
+      let name := (s.drop 8).toString
+      match scmpKinds.findIdx? (fun k => k.name == name) with
+      | some i => some (.scmpMsg i)
+      | none => none
+    else none
+
+def constOf (s : String) : Option Nat :=
+  match s with
+  | "CommonHeader.SIZE_BYTES" => some CommonHeader.SIZE_BYTES
+  | "StdPathMeta.SIZE_BYTES" => some StdPathMeta.SIZE_BYTES
+  | "InfoField.SIZE_BYTES" => some InfoField.SIZE_BYTES
+  | "HopField.SIZE_BYTES" => some HopField.SIZE_BYTES
+  | "OneHopPath.SIZE_BYTES" => some OneHopPath.SIZE_BYTES
+  | "UdpDatagram.HEADER_SIZE_BYTES" => some UdpDatagram.HEADER_SIZE_BYTES
+  | "ScionHeader.MAX_SIZE_BYTES" => some ScionHeader.MAX_SIZE_BYTES
+  | "HopField.MAC_RNG.start" => some HopField.MAC_RNG.start
+  | "HopField.MAC_RNG.stop" => some HopField.MAC_RNG.stop
+  | "CommonHeader.FLOW_ID_RNG.start" => some CommonHeader.FLOW_ID_RNG.start
+  | "CommonHeader.FLOW_ID_RNG.stop" => some CommonHeader.FLOW_ID_RNG.stop
+  | "SCMP_ERROR_MAX_PACKET_SIZE" => some SCMP_ERROR_MAX_PACKET_SIZE
+  | _ => none
+
+def step (st : Unit) : List String → Unit × String
+  | ["size", k, hx] =>
+    match kindOf k, parseHex hx with
+    | some kind, some bs => (st, sizeStr (requiredSize kind bs))
+    | _, _ => (st, "bad-op")
+  | ["const", n] =>
+    match constOf n with
+    | some v => (st, toString v)
+    | none => (st, "bad-op")
+  | _ => (st, "bad-op")
+
+def main : IO Unit := Driver.run () step
